@@ -408,6 +408,61 @@ type runner struct {
 	pristineEvery int64
 	seq           int64
 	journal       *os.File
+	battery       []BatteryEntry
+	sinceBattery  int
+}
+
+// buildBattery records, while the process is still pristine, what a fresh Model returns for one fixed instance
+// of every operator template (default attributes where the template has them).
+func (rn *runner) buildBattery(lib *library) {
+	for ti, t := range lib.tpls {
+		r := rng.New(rng.Mix(0xba77e47, uint64(ti)))
+		e := corpus.DrawSingle(r, lib.tpls, ti, -1)
+		be := BatteryEntry{Name: t.Name, Op: e.Ops[len(e.Ops)-1], Bytes: e.Model.Bytes(), Inputs: e.InputSets[0]}
+		ref := (&refCache{m: map[uint64]*refResult{}}).fresh(&ModelSpec{Bytes: be.Bytes}, be.Inputs, nil, false)
+		be.Kind, be.Out = ref.Kind, ref.Out
+		rn.battery = append(rn.battery, be)
+	}
+	for _, kind := range []string{"RNN", "GRU", "LSTM"} {
+		e := corpus.DefaultRecurrentEntry(kind)
+		be := BatteryEntry{Name: e.Name, Op: kind, Bytes: e.Model.Bytes(), Inputs: e.InputSets[0]}
+		ref := (&refCache{m: map[uint64]*refResult{}}).fresh(&ModelSpec{Bytes: be.Bytes}, be.Inputs, nil, false)
+		be.Kind, be.Out = ref.Kind, ref.Out
+		rn.battery = append(rn.battery, be)
+	}
+}
+
+// checkBattery re-runs the sentinels on fresh Models: whatever happened in this process since it started, they
+// must return what they returned then. c is the world that was executed last.
+func (rn *runner) checkBattery(c *Case) {
+	for i := range rn.battery {
+		be := &rn.battery[i]
+		ref := (&refCache{m: map[uint64]*refResult{}}).fresh(&ModelSpec{Bytes: be.Bytes}, be.Inputs, nil, false)
+		ok := ref.Kind == be.Kind
+		d := fmt.Sprintf("outcome %s, at process start %s", ref.Kind, be.Kind)
+		if ok && ref.Kind == "ok" {
+			ok, d = equalOuts(be.Out, ref.Out)
+		}
+		rn.st.Probe("battery_sentinels_rechecked")
+		if !ok {
+			cc := cloneCase(c)
+			cc.Battery = be
+			rn.report(cc, []verdict{{sig: "process-state-changes-results:" + be.Op, what: fmt.Sprintf("a freshly loaded sentinel model (%s) no longer returns what it returned when this process started: %s", be.Name, d)}})
+			return
+		}
+	}
+}
+
+// afterWorld: periodic sentinel check.
+func (rn *runner) afterWorld(c *Case) {
+	if len(rn.battery) == 0 {
+		return
+	}
+	rn.sinceBattery++
+	if rn.sinceBattery >= 250 {
+		rn.sinceBattery = 0
+		rn.checkBattery(c)
+	}
 }
 
 // gate is called with every world before it is executed. It returns false when the world must not be executed
@@ -628,6 +683,10 @@ func Worker02(cfg Config) *evid.Stats {
 			rn.rc.m = map[uint64]*refResult{}
 		}
 		rn.remember(c)
+		rn.afterWorld(c)
+	}
+	if cfg.EmitOut == "" {
+		rn.buildBattery(lib)
 	}
 	// 1. enumerated: every template x every (operand, binding) pair x the fixed reuse patterns
 	idx := 0
